@@ -283,6 +283,11 @@ pub const STMT_CORE: &[&str] = &[
     "do end;",
     "if a then f(); end",
     "function f() return a; end",
+    // blank lines at the start / end of a nested block (removed by the block post-processing)
+    "do\n\n\tlocal x = 1\nend",
+    "function f()\n\n\treturn 1\nend",
+    "if a then\n\n\tf()\n\nelse\n\n\tg()\n\nend",
+    "while a do\n\n\n\tbreak\nend",
     // conditions / headers that contain containers (tables, functions) — a header that hangs re-formats them
     "while f({ a = 1 }) and g do\n\tx()\nend",
     "while a == { 1, 2 } or b do x() end",
@@ -2116,10 +2121,10 @@ pub fn f_ign_compound() -> Vec<Case> {
 /// require groups and ignore regions spanning several groups (sort_requires on)
 pub fn f_ign_requires() -> Vec<Case> {
     let mut v = Vec::new();
-    let groups: [&[&str]; 3] = [
-        &["local c = require(\"c\")", "local b   =   require( \"b\" )"],
-        &["local Delta = require(\"Delta\")", "local Beta = require(\"Beta\")"],
-        &["local z = require(\"z\")", "local y = require(\"y\")"],
+    let groups: [&[(&str, &str)]; 3] = [
+        &[("local c = require(\"c\")", "c"), ("local b   =   require( \"b\" )", "b")],
+        &[("local Delta = require(\"Delta\")", "Delta"), ("local Beta = require(\"Beta\")", "Beta")],
+        &[("local z = require(\"z\")", "z"), ("local y = require(\"y\")", "y")],
     ];
     // region start before statement (gi, si), region end before statement (gj, sj) or never
     let mut positions = vec![];
@@ -2132,19 +2137,23 @@ pub fn f_ign_requires() -> Vec<Case> {
         for end in positions.iter().skip(pi + 1).map(Some).chain(std::iter::once(None)) {
             let mut text = String::new();
             let mut ignored = vec![];
+            let mut items = vec![];
             let mut inside = false;
             for (gi, g) in groups.iter().enumerate() {
                 if gi > 0 {
                     text.push('\n');
                 }
-                for (si, st) in g.iter().enumerate() {
+                for (si, (st, name)) in g.iter().enumerate() {
+                    let mut sep = if si == 0 { Sep::Blank } else { Sep::None };
                     if (gi, si) == *start {
                         text.push_str("-- stylua: ignore start\n");
                         inside = true;
+                        sep = Sep::Comment;
                     }
                     if Some(&(gi, si)) == end {
                         text.push_str("-- stylua: ignore end\n");
                         inside = false;
+                        sep = Sep::Comment;
                     }
                     let a = text.len();
                     text.push_str(st);
@@ -2152,10 +2161,12 @@ pub fn f_ign_requires() -> Vec<Case> {
                         ignored.push((a, text.len()));
                     }
                     text.push('\n');
+                    items.push(ReqItem { kind: ReqKind::Require, name: name.to_string(), ignored: inside, sep_before: if gi == 0 && si == 0 { Sep::Blank } else { sep } });
                 }
             }
             let mut c = case("F-IGN", Dial::Core, text);
             c.meta.ignored = ignored;
+            c.meta.req = items;
             c.meta.comments = 2;
             v.push(c);
         }
